@@ -125,13 +125,16 @@ def gen_hist2(rng, max_steps=8):
     steps = []
     for _ in range(rng.randint(2, max_steps)):
         o, j = rng.randrange(nobj), rng.randrange(nobj)
-        k = rng.choice(['append_ref', 'iadd_ref', 'add_ref', 'new_from', 'append_lines_of', 'append', 'trim', 'indent', 'setlines', 'obs'])
+        k = rng.choice(['append_ref', 'iadd_ref', 'add_ref', 'new_from', 'new_with_header', 'append_lines_of', 'append', 'trim', 'indent', 'indent', 'setlines', 'obs'])
         st = {'k': k, 'o': o}
         if k in ('append_ref', 'iadd_ref', 'add_ref', 'append_lines_of'):
             st['j'] = j
         elif k == 'new_from':
             st['j'] = j
             st['comment'] = rng.random() < 0.3
+        elif k == 'new_with_header':
+            st['j'] = j
+            st['h'] = rng.randrange(nobj)
         elif k == 'append':
             st['c'] = gen_content(rng, 3)
         elif k == 'trim':
@@ -316,6 +319,8 @@ def run_text_op(case):
                 objs[i] = Comment(objs[st['j']]) if st.get('comment') else TextBlock(objs[st['j']])
             elif k == 'append_lines_of':
                 objs[i].append(objs[st['j']].lines)
+            elif k == 'new_with_header':
+                objs[i] = TextBlock(objs[st['j']], header=objs[st['h']])
             elif k == 'append':
                 objs[i].append(to_py(st['c']))
             elif k == 'trim':
